@@ -485,4 +485,18 @@ instance decPost52Free : (ops : List Op) → Decidable (Post52Free ops)
     have := decPost52Free (op2 :: ops)
     by unfold Post52Free; infer_instance
 
+/-- The absolute horizontal plus vertical movement the step `op` performs in state `s`. -/
+def stepMag (s : Values) : Op → Nat
+  | .typesetRule _ w m => if m then w.natAbs else 0
+  | .right d => d.natAbs
+  | .down d => d.natAbs
+  | .move v => (s.top.var v).natAbs
+  | .setVar _ i => i.natAbs
+  | _ => 0
+
+/-- Total movement of a run from state `s`. -/
+def runMag : Values → List Op → Nat
+  | _, [] => 0
+  | s, op :: ops => stepMag s op + runMag (s.update op) ops
+
 end C16
